@@ -87,7 +87,7 @@ def run(tier, seed, open_findings):
     res = pmap(eval_doc, jobs, chunk=1)
     fails = [dict(case=dict(doc=r['doc'], ver=r['ver'], fault=b[0]), observed=b[1], required='invalid; unique path to error.elem; an error at the node or its parent; none outside chain/subtree') for r in res for b in r['bad']]
     cases = sum(r['cases'] for r in res)
-    return [run_nested(), run_all11(), result('C19.single_fault_location', f'{len(docs)} valid documents x every node x {len(FAULTS)} single-node faults x 2 classes', cases, fails, samples=[dict(doc=docs[0][:160], fault='bad_text')], distinct=cases)]
+    return [run_nested(), run_all11(), run_all10(), result('C19.single_fault_location', f'{len(docs)} valid documents x every node x {len(FAULTS)} single-node faults x 2 classes', cases, fails, samples=[dict(doc=docs[0][:160], fault='bad_text')], distinct=cases)]
 
 
 ALL11 = '<xs:schema xmlns:xs="http://www.w3.org/2001/XMLSchema"><xs:element name="r"><xs:complexType><xs:sequence><xs:element name="g" maxOccurs="unbounded"><xs:complexType><xs:all>' \
@@ -112,6 +112,37 @@ def eval_all11(doc):
             if not errs: bad.append(('drop_child', f'g[{gi + 1}]: removing <{c.tag}> leaves {left} (minOccurs {need}): not reported'))
             elif not any(e.elem is g2 for e in errs): bad.append(('drop_child', f'g[{gi + 1}]: no error located at the parent of the missing <{c.tag}>: {[e.path for e in errs][:2]}'))
     return dict(doc=doc, cases=n, bad=bad)
+
+
+ALL10 = '<xs:schema xmlns:xs="http://www.w3.org/2001/XMLSchema"><xs:element name="r"><xs:complexType><xs:choice maxOccurs="unbounded">' \
+        '<xs:element name="h"><xs:complexType><xs:all><xs:element name="a"/><xs:element name="b" minOccurs="0"/></xs:all></xs:complexType></xs:element>' \
+        '<xs:element name="h2"><xs:complexType><xs:all><xs:element name="a"/><xs:element name="c"/><xs:element name="b" minOccurs="0"/></xs:all></xs:complexType></xs:element>' \
+        '<xs:element name="h3"><xs:complexType><xs:all minOccurs="0"><xs:element name="a"/><xs:element name="b" minOccurs="0"/></xs:all></xs:complexType></xs:element>' \
+        '</xs:choice></xs:complexType></xs:element></xs:schema>'
+
+
+def run_all10():
+    """xs:all groups with required and optional members (both classes): removing a required member is reported at its parent - also when it was the only child, so that the
+    element is left empty (an optional all group, h3, may be left empty: then nothing is damaged when its only child goes)"""
+    import xmlschema, copy
+    from xml.etree import ElementTree as ET
+    need = {'h': {'a'}, 'h2': {'a', 'c'}, 'h3': {'a'}}
+    docs = ['<r><h><a/></h></r>', '<r><h><b/><a/></h><h><a/></h></r>', '<r><h2><c/><a/></h2><h><a/><b/></h></r>', '<r><h2><a/><b/><c/></h2></r>', '<r><h3><a/><b/></h3><h3/><h><a/></h></r>']
+    bad = []; n = 0
+    for ver in ('1.0', '1.1'):
+        s = _cls(ver)(ALL10)
+        for doc in docs:
+            root = ET.fromstring(doc)
+            if not s.is_valid(root): bad.append(dict(case=dict(all10=True, ver=ver, doc=doc, drop='-'), observed='the base document is invalid', required='valid')); continue
+            for hi, h in enumerate(root):
+                for ci, c in enumerate(h):
+                    if c.tag not in need[h.tag] or (h.tag == 'h3' and len(h) == 1): continue
+                    n += 1
+                    r2 = copy.deepcopy(root); h2 = r2[hi]; h2.remove(h2[ci])
+                    errs = list(s.iter_errors(r2))
+                    if not errs: bad.append(dict(case=dict(all10=True, ver=ver, doc=doc, drop=f'{h.tag}[{hi + 1}]/{c.tag}'), observed='the damaged document is reported valid', required='invalid, an error at the parent of the removed child'))
+                    elif not any(e.elem is h2 for e in errs): bad.append(dict(case=dict(all10=True, ver=ver, doc=doc, drop=f'{h.tag}[{hi + 1}]/{c.tag}'), observed=f'errors at {[e.path for e in errs][:2]}', required='an error at the parent of the removed child'))
+    return result('C19.all_group_missing_member', f'{len(docs)} documents over xs:all groups with required and optional members x every removal of a required member x 2 classes', n, bad, exhaustive=True)
 
 
 def run_all11():
@@ -163,6 +194,8 @@ def run_nested():
 def replay(check_name, case):
     if case.get('nested_decl'):
         r = eval_nested((case['ver'], case['doc'])); return dict(ok=not r['bad'], observed=r['bad'][:2], required='path selects error.elem')
+    if case.get('all10'):
+        r = run_all10(); mine = [f for f in r['failures'] if f['case'] == case]; return dict(ok=not mine, observed=mine[:1], required='reported at the parent')
     if case.get('all11'):
         r = eval_all11(case['doc']); return dict(ok=not r['bad'], observed=r['bad'][:2], required='the missing occurrence is reported at its parent')
     r = eval_doc((case['ver'], case['doc']))
